@@ -355,7 +355,7 @@ def gen_op(rng, L, p_bad):
     )
     if kind == "scale":
         api = rng.choice(["multiply_", "multiply_", "multiply", "multiply_each_", "imul", "itruediv", "site_imul", "site_itruediv",
-                          "site_imul", "normalize"])
+                          "site_imul", "normalize", "site_normalize"])
         c = rng.choice([2.0, 0.5, -1.5, -1.0, 1.0, 3.0, [0.6, 0.8], [0.0, 1.0], [1.5, -0.5], [-2.0, 1.0]])
         return {"kind": "scale", "api": api, "c": c, "spread": rng.choice([1, 2, 3, 8, "all"]), "site": rng.randrange(L),
                 "insert": rng.choice([None, rng.randrange(L)]), "seed": seed}
@@ -446,6 +446,8 @@ def op_to_coq(op):
         if op["api"] == "measure_outcome_copy":
             return f"ODroppedCopy true {natlit(op['site'])} {natlit(op['site'])}"
         return "ODroppedCopy false 0%nat 0%nat"
+    if k == "scale" and op["api"] == "site_normalize":
+        return f"ONormalizeSite {natlit(op['_sites'][0])}"
     if k == "scale":
         return "OScale [" + "; ".join(natlit(x) for x in op["_sites"]) + "]"
     if k == "fresh":
@@ -462,9 +464,12 @@ def is_bad(op, L, pre_rec=None):
     operations outside are scalar rescalings (which do not take the record) that
     touch a site outside a recorded pair range: there the CALLER has to start a
     fresh record, which the harness does right after (kind 'fresh')."""
-    if op["kind"] == "scale" and isinstance(pre_rec, tuple):
-        a, b = pre_rec
-        return any(not (a <= x <= b) for x in op["_sites"])
+    if op["kind"] == "scale":
+        if op["api"] == "site_normalize" and op.get("_flag", "FNone") != "FNone":
+            return True  # Tensor.normalize_ keeps the flag of the tensor it rescales (open finding)
+        if isinstance(pre_rec, tuple):
+            a, b = pre_rec
+            return any(not (a <= x <= b) for x in op["_sites"])
     return False
 
 
@@ -590,17 +595,22 @@ class Driver:
             fc.startswith("other") for _, _, fc in obs)
         self.steps = []  # (op, calc, bad, expectation or None)
         self.record_void = False  # a rescale outside the recorded range: the record is the caller's to renew
+        self.circ = None  # set by run_circuit_history: the state lives in a CircuitMPS, the record in its gate_opts
         self.calc_seen = None
 
     # -- replay payload ------------------------------------------------------
     def payload(self, extra=None):
         d = {"spec": self.spec, "ops": self.ops_done}
+        if self.circ is not None:
+            d["circuit"] = True
         if extra:
             d.update(extra)
         return d
 
     def key_of(self, op):
         k = op["kind"]
+        if op.get("circuit"):
+            return "CircuitMPS(psi0):" + op["circuit"][0]
         if k == "swap":
             adj = abs(op["i"] - op["j"]) == 1
             return f"swap_sites_with_compress:{'adjacent' if adj else 'distant'}:absorb={op['absorb'] or 'default'}"
@@ -651,6 +661,7 @@ class Driver:
             raise Stop()
         if op["kind"] == "scale":
             op["_sites"] = self.scaled_sites(op)
+            op["_flag"] = observe(self.mps)[op["_sites"][0]][2]
         key = self.key_of(op)
         pre_obs = observe(self.mps)
         pre_rec = read_record(self.info)
@@ -717,6 +728,20 @@ class Driver:
         if badf:
             ctx.violation(key + ":false_flag", f"after {key}: " + "; ".join(badf[:2]), self.payload())
             raise Stop()
+        if self.circ is not None:
+            self.circuit_consumers(rec)
+
+    def circuit_consumers(self, rec):
+        """record consumers of the circuit layer: the norm based fidelity / error estimate"""
+        psid = dense_of(self.circ._psi)
+        n2 = float(np.vdot(psid, psid).real)
+        fe, ee = float(self.circ.fidelity_estimate()), float(self.circ.error_estimate())
+        isrange = isinstance(rec, tuple) and rec[0] != rec[1]
+        self.ctx.bump("circuit_psi0_fidelity_estimate" + (":range_record" if isrange else ""))
+        if abs(fe - n2) > TOL_VAL * max(1.0, n2) or abs(ee - (1 - n2)) > TOL_VAL * max(1.0, n2):
+            self.ctx.violation("CircuitMPS(psi0):fidelity_estimate", f"fidelity_estimate {fe} / error_estimate {ee} with record {rec}; dense <psi|psi> = {n2}",
+                               self.payload())
+            raise Stop()
 
     def scaled_sites(self, op):
         """which site tensors the rescale touches, by the library's own rule: TensorNetwork.multiply
@@ -735,7 +760,7 @@ class Driver:
             return order[: min(L, 8)]
         if api == "multiply_each_":
             return order
-        if api in ("site_imul", "site_itruediv"):
+        if api in ("site_imul", "site_itruediv", "site_normalize"):
             return [op["site"] % L]
         if api == "normalize":
             return [L - 1 if op["insert"] is None else op["insert"] % L]
@@ -777,6 +802,15 @@ class Driver:
                     ref = dense_rho(psi0, dims, list(w))
                     self.consumer(api, close(rho, ref / np.trace(ref)), "partial_trace_to_dense_canonical differs from the dense reduced density matrix",
                                   {"where": w})
+            elif api == "circuit_local_expectation":
+                d = int(np.prod([dims[x] for x in w]))
+                G = rand_general(g, d, True)
+                val = complex(self.circ.local_expectation(G, wa))
+                self.mps = self.circ._psi
+                if small:
+                    ref = dense_expec(psi0, dims, G, list(w))
+                    self.consumer("CircuitMPS:local_expectation", abs(val - ref) <= TOL_VAL * max(1, abs(ref)),
+                                  f"CircuitMPS.local_expectation {val} vs dense <psi|G|psi> = {ref}", {"where": w})
             elif api == "local_exp_canonical":
                 d = int(np.prod([dims[x] for x in w]))
                 G = rand_general(g, d, self.cplx)
@@ -843,7 +877,12 @@ class Driver:
                                            f"optimal for the two bonds in turn {e_ref:.6g} (norm of the state {nrm2 ** 0.5:.4g})",
                                            self.payload({"error": e_got, "optimal": e_ref}))
         elif k == "swap":
-            mps.swap_sites_with_compress_(op["i"], op["j"], info=info, **({} if op["absorb"] is None else {"absorb": op["absorb"]}), **opts)
+            if op.get("circuit"):
+                self.circ.apply_gate("SWAP", op["i"], op["j"])
+                self.mps = self.circ._psi
+                exact = True
+            else:
+                mps.swap_sites_with_compress_(op["i"], op["j"], info=info, **({} if op["absorb"] is None else {"absorb": op["absorb"]}), **opts)
             if small and exact:
                 want, _ = dense_swap(psi0, dims, op["i"], op["j"])
         elif k == "swap_to":
@@ -852,9 +891,18 @@ class Driver:
                 want, _ = dense_move(psi0, dims, op["i"], op["f"])
         elif k == "auto_swap":
             i, j = op["i"], op["j"]
-            G = make_gate(op, dims[i] * dims[j], self.cplx)
             api = op["api"]
-            if api == "gate_with_auto_swap_":
+            if op.get("circuit"):
+                lab, params = op["circuit"]
+                G = np.asarray(qtn.Gate(lab, tuple(params), (i, j)).array).reshape(4, 4)
+                self.circ.apply_gate(lab, *params, i, j)
+                self.mps = self.circ._psi
+                exact = True
+            else:
+                G = make_gate(op, dims[i] * dims[j], self.cplx)
+            if op.get("circuit"):
+                pass
+            elif api == "gate_with_auto_swap_":
                 mps.gate_with_auto_swap_(G, (i, j), info=info, swap_back=op["swap_back"], **opts)
             else:
                 mps.gate_(G, (i, j), contract=api.split(":")[1], info=info, **opts)
@@ -881,8 +929,18 @@ class Driver:
                 want = dense_apply(psi0, dims, G, list(w))
         elif k == "gate1":
             i = op["i"]
-            G = make_gate(op, dims[i], self.cplx)
-            mps.gate_(G, i, contract=op["contract"], info=info)
+            if op.get("circuit"):
+                lab, params = op["circuit"]
+                if lab == "RAW":
+                    G = make_gate(op, dims[i], True)
+                    self.circ.apply_gate_raw(G, [i])
+                else:
+                    G = np.asarray(qtn.Gate(lab, tuple(params), (i,)).array)
+                    self.circ.apply_gate(lab, *params, i)
+                self.mps = self.circ._psi
+            else:
+                G = make_gate(op, dims[i], self.cplx)
+                mps.gate_(G, i, contract=op["contract"], info=info)
             if small:
                 want = dense_apply(psi0, dims, G, [i])
         elif k == "measure":
@@ -975,6 +1033,11 @@ class Driver:
                 t = mps[op["site"] % L]
                 t /= c
                 want = psi0 / c
+            elif api == "site_normalize":
+                t = mps[op["site"] % L]
+                tn = float(np.linalg.norm(np.asarray(t.data)))
+                t.normalize_()
+                want = psi0 / tn
             elif api == "normalize":
                 old = mps.normalize(insert=op["insert"])
                 if small:
@@ -1058,6 +1121,79 @@ def run_history(ctx, spec, ops=None, nops=25, p_bad=0.03, hid=0):
     return D
 
 
+def gen_circuit_op(rng, L):
+    seed = rng.randrange(1 << 30)
+    r = rng.random()
+    if r < 0.12:
+        return {"kind": "gate1", "i": rng.randrange(L), "unitary": False, "contract": "auto-mps", "circuit": ["RAW", []], "seed": seed}
+    if r < 0.40:
+        lab = rng.choice(["H", "X", "T", "S", "RZ", "RX", "U3"])
+        params = [round(rng.uniform(-3, 3), 3) for _ in range({"RZ": 1, "RX": 1, "U3": 3}.get(lab, 0))]
+        return {"kind": "gate1", "i": rng.randrange(L), "unitary": True, "contract": "auto-mps", "circuit": [lab, params], "seed": seed}
+    if r < 0.50:
+        i, j = rng.sample(range(L), 2)
+        return {"kind": "swap", "i": i, "j": j, "absorb": None, "opts": {"cutoff": 0.0}, "circuit": ["SWAP", []], "seed": seed}
+    if r < 0.85:
+        lab = rng.choice(["CNOT", "CZ", "ISWAP", "RZZ", "FSIM"])
+        params = [round(rng.uniform(-3, 3), 3) for _ in range({"RZZ": 1, "FSIM": 2}.get(lab, 0))]
+        i, j = rng.sample(range(L), 2)
+        return {"kind": "auto_swap", "api": "circuit", "i": i, "j": j, "swap_back": True, "unitary": True, "opts": {"cutoff": 0.0},
+                "circuit": [lab, params], "seed": seed}
+    w = rng.sample(range(L), rng.choice([1, 2]))
+    return {"kind": "canon", "api": "circuit_local_expectation", "where": w, "as_int": len(w) == 1 and rng.random() < 0.5,
+            "circuit": ["local_expectation", []], "seed": seed}
+
+
+def run_circuit_history(ctx, spec, ops=None, nops=10, hid=0):
+    """CircuitMPS(psi0=<the state of spec>): the circuit's own record (gate_opts['info']) is threaded
+    through gates and queries; the model starts from the documented initial record, an empty dict"""
+    import quimb.tensor as qtn
+
+    D = Driver(ctx, spec, hid)
+    if not D.init_ok:
+        ctx.broken_obligation("harness:initial_state_claims", {"spec": spec})
+        return D
+    D.circ = qtn.CircuitMPS(psi0=D.mps, cutoff=0.0)
+    D.mps, D.info = D.circ._psi, D.circ.gate_opts["info"]
+    D.cplx = True
+    # straight after construction: the record the circuit starts with must be true of the state it was given
+    rec0, obs0 = read_record(D.info), observe(D.mps)
+    bad = record_violations(rec0, obs0)
+    ctx.count(("circuit_init", spec["prep"], str(rec0)), True)
+    if bad:
+        ctx.violation("CircuitMPS(psi0):init:stale_record", f"CircuitMPS(psi0=...) starts with record {rec0} but " + "; ".join(bad[:2]),
+                      {"spec": spec, "ops": [], "circuit": True})
+        return D
+    try:
+        D.circuit_consumers(rec0)
+        if ops is not None:
+            for op in ops:
+                D.apply(op)
+        else:
+            for _ in range(nops):
+                D.apply(gen_circuit_op(ctx.rng, D.mps.L))
+    except Stop:
+        pass
+    return D
+
+
+def circuit_psi0_stream(ctx):
+    """circuits started from a user supplied MPS (raw, partially canonical, MPS_rand_state): exact
+    correspondence of the circuit's record with the model + oracle + circuit-level consumers"""
+    rng = ctx.rng
+    for h in range(1, ctx.n(30, 200) + 1):
+        L = rng.randint(2, 6)
+        spec = {"L": L, "bonds": [rng.randint(1, 4) for _ in range(L - 1)], "phys": [2] * L, "complex": rng.random() < 0.5,
+                "prep": rng.choice(["raw", "raw", "canon", "rand_state", "product"]), "seed": rng.randrange(1 << 30), "record": "unset"}
+        if spec["prep"] == "canon":
+            c1 = rng.randrange(L)
+            spec["center"] = [c1, rng.randrange(c1, L)]
+        ctx.bump("circuit_psi0:" + spec["prep"])
+        D = run_circuit_history(ctx, spec, nops=rng.randint(3, 12), hid=5000 + h)
+        if D.steps:
+            PENDING.append((500000 + h, D.coq_case(), "circuit_psi0", D))
+
+
 def histories_stream(ctx):
     nh = ctx.n(150, 600)
     cases, drivers = [], {}
@@ -1131,6 +1267,12 @@ def findings_stream(ctx):
     for i, k in ((3, 2), (2, 1), (0, 1), (5, 1), (4, 3)):
         scripts.append([{"kind": "compress_site", "i": i, "canonize": True, "opts": {"max_bond": k, "cutoff": 0.0}, "seed": 6}])
         specs.append(dict(wide))
+    # Tensor.normalize_ on a flagged site (open finding: the flag survives the rescale)
+    for site in (1, 4):
+        scripts.append([{"kind": "scale", "api": "site_normalize", "c": 1.0, "spread": 1, "site": site, "insert": None, "seed": 7},
+                        {"kind": "fresh", "record": "calc", "seed": 0},
+                        {"kind": "singvals", "api": "schmidt_values", "i": 3, "seed": 8}])
+        specs.append(dict(base))
     cases, drivers = [], {}
     for n, ops in enumerate(scripts, 1):
         D = run_history(ctx, specs[n - 1], ops=ops, hid=1000 + n)
@@ -1327,7 +1469,7 @@ def run(ctx):
     t = time.time()
     setup(ctx)
     times = {"coq_props": round(time.time() - t, 1)}
-    for fn in (corpus_stream, findings_stream, rejected_stream, histories_stream, flush, methods_stream, circuit_stream):
+    for fn in (corpus_stream, findings_stream, rejected_stream, histories_stream, circuit_psi0_stream, flush, methods_stream, circuit_stream):
         t = time.time()
         ctx.stage(fn)
         times[fn.__name__] = round(time.time() - t, 1)
@@ -1347,7 +1489,7 @@ def corpus_stream(ctx):
         d = d.get("replay", d)
         if "spec" not in d or "ops" not in d:
             continue
-        D = run_history(ctx, d["spec"], ops=d["ops"], hid=2000 + n)
+        D = (run_circuit_history if d.get("circuit") else run_history)(ctx, d["spec"], ops=d["ops"], hid=2000 + n)
         ctx.bump("corpus")
         if D.steps:
             cases.append((n, D.coq_case()))
@@ -1363,7 +1505,7 @@ def replay(ctx, path):
         d = json.load(f)
     d = d.get("replay", d)
     if isinstance(d, dict) and "spec" in d and "ops" in d:
-        D = run_history(ctx, d["spec"], ops=d["ops"], hid=1)
+        D = (run_circuit_history if d.get("circuit") else run_history)(ctx, d["spec"], ops=d["ops"], hid=1)
         if D.steps:
             failed, errors = ctx.coq_cases("replay", HEADER, [(1, D.coq_case())], shard=5)
             for p, err in errors:
